@@ -20,7 +20,9 @@ RULE = (
     "all sequences up to the length bound over a 20-symbol token alphabet "
     "joined by spaces, all strings up to the length bound over a 12-character "
     "alphabet (both exhaustive), truncations of the tests/data corpus and of "
-    "generated labels at every character offset, random splices of corpus "
+    "generated labels at every character offset, every sequence of up to 5 "
+    "tokens in value position, all pairs of ~75 borderline atoms glued together "
+    "as a value, random splices of corpus "
     "fragments; x 5 parser configurations. distinct = (parser, string); "
     "non-trivial = string is not empty"
 )
@@ -121,6 +123,19 @@ def strings(tier, seed, pvl):
     for tup in itertools.product(CHARS, repeat=2):
         yield "char-pair-in-context", "k = " + "".join(tup) + "\nj = 2\nEND\n"
         yield "char-pair-in-context", "GROUP = g\n k = (1, " + "".join(tup) + ")\nEND_GROUP\n"
+    # values: every short token sequence in value position
+    VAL = ["(", ")", "{", "}", ",", "1", "'x'", "<m>"] + \
+        (["a", "=", ";"] if tier == "thorough" else [])
+    for n in range(1, 6):
+        for tup in itertools.product(VAL, repeat=n):
+            yield "value-context", "k = " + " ".join(tup) + "\nj = 2\n"
+    # pairs of borderline atoms glued together, as a value and in a sequence
+    from .c17 import ATOMS
+    for a in ATOMS:
+        for b in ATOMS:
+            yield "atom-pairs", f"k = {a}{b}\n"
+            if tier == "thorough" or hash((a, b)) % 4 == 0:
+                yield "atom-pairs", f"k = ({a}{b}, {b}) <m>\nEND\n"
     corpus = corpus_texts(pvl)
     step = 7 if tier == "quick" else 1
     for name, t in corpus:
@@ -175,7 +190,8 @@ def finish_kwargs(rec, tier):
         required_counters=("strings[token-alphabet]", "strings[char-alphabet]",
                            "strings[corpus-truncation]",
                            "strings[generated-truncation]",
-                           "strings[corpus-splice]",
+                           "strings[corpus-splice]", "strings[value-context]",
+                           "strings[atom-pairs]",
                            "outcome[default][LexerError]", "outcome[PVL][ok]"),
         assumptions=["'terminates' is decided as bounded progress: pulls <= "
                      "50*(len(text)+2) (largest observed ratio is in maxima) "
